@@ -26,6 +26,7 @@ type loopInfo struct {
 	// ordinary obligation on every back edge, so a body that changes v or E is caught by the solver.
 	cntUp   *SExpr
 	autoDec *SExpr
+	autoInv *Clause // `v >= c` / `v <= c` for a counting loop that starts at the literal c: checked like a written invariant
 }
 
 type FnExec struct {
@@ -219,6 +220,19 @@ func (fx *FnExec) recogniseCountingLoops() {
 		if up {
 			if x, err := parseSpecExpr(v + " - 1"); err == nil {
 				li.cntUp = x
+			}
+		}
+		if as, ok := best.Init.(*ast.AssignStmt); ok && as.Tok == token.DEFINE && len(as.Lhs) == 1 && len(as.Rhs) == 1 {
+			if id, ok := as.Lhs[0].(*ast.Ident); ok && id.Name == v {
+				if lit, ok := as.Rhs[0].(*ast.BasicLit); ok && lit.Kind == token.INT {
+					op := " >= "
+					if !up {
+						op = " <= "
+					}
+					if x, err := parseSpecExpr(v + op + lit.Value); err == nil {
+						li.autoInv = &Clause{Label: "auto-bound", Expr: x, Src: v + op + lit.Value}
+					}
+				}
 			}
 		}
 	}
